@@ -539,6 +539,9 @@ PROFILES = {
                    shared=0.8, grid=60, maxfws=[-1, -1, -1, 600], njourneys=40),
     # two (three) vehicles sharing a run of stops with forbidden boardings / alightings: every clean-up rewrite case with
     # several candidate stops (see gen_pair_dataset)
+    # requests with a first-waiting limit most of the time (the limit is applied in both passes of a departure request)
+    "fwlim": dict(pos_hops=True, transferable=False, nmin=3, nmax=6, lmax=5, tmax=3, loops=0.2, forbid=0.08, pfp=0.35,
+                  grid=60, minws=None, maxfws=[120, 300, 600, 100, 900, -1]),
     "pairfam": dict(family="pair", pos_hops=True, transferable=False, grid=60, minws=[0, 60, 60, 180], maxfws=[-1, -1, -1, 600],
                     njourneys=150, pplan=0.8, palt=0.35, pstop=0.03),
     # zero-time hops and zero waiting (termination)
